@@ -191,24 +191,33 @@ theorem memo_leak_witness :
       = .reject .typeMismatch := by decide
 
 def kidT : Chk := .array Attr.dflt (.disj ⟨none, .required⟩ (alts [I, .prim Attr.dflt .string])) none
-/-- #23: `[1]` against an array of (Integer | String) that REQUIRES indirect elements is accepted -/
+/-- #23 (repaired by C08-08): `[1]` against an array of (Integer | String) that REQUIRES indirect
+    elements was accepted -/
 theorem disjunct_attrs_dropped_witness :
-    (checkTypeFuel Fix.tree [] [] 50 (.arr (.cons [] (.int 1) .nil)) kidT).1 = .accept ∧
-    gfp [] [] (.arr (.cons [] (.int 1) .nil)) kidT = false := by decide
+    (checkTypeFuel Fix.orig [] [] 50 (.arr (.cons [] (.int 1) .nil)) kidT).1 = .accept ∧
+    (checkTypeFuel { Fix.tree with disjAttrs := false } [] [] 50 (.arr (.cons [] (.int 1) .nil)) kidT).1 = .accept ∧
+    gfp [] [] (.arr (.cons [] (.int 1) .nil)) kidT = false ∧
+    (checkTypeFuel Fix.tree [] [] 50 (.arr (.cons [] (.int 1) .nil)) kidT).1 = .reject .valueMismatch := by decide
 
 def namedD : Ctx := [("t", .disj Attr.dflt (alts [I, .prim Attr.dflt .string]))]
-/-- a disjunction reached through a name is a hard error: `<< /A 1 >>` against dict{A : t}, t = Integer|String -/
+/-- N2 (repaired by C08-07): a disjunction reached through a name was a hard error:
+    `<< /A 1 >>` against dict{A : t}, t = Integer|String -/
 theorem named_disjunct_witness :
-    (checkTypeFuel Fix.tree [] namedD 50 (.dict (.cons kA (.int 1) .nil))
+    (checkTypeFuel Fix.orig [] namedD 50 (.dict (.cons kA (.int 1) .nil))
         (.dict Attr.dflt (.cons kA .required (.named "t") .nil))).1 = .reject .predicate ∧
-    gfp [] namedD (.dict (.cons kA (.int 1) .nil)) (.dict Attr.dflt (.cons kA .required (.named "t") .nil)) = true := by
+    gfp [] namedD (.dict (.cons kA (.int 1) .nil)) (.dict Attr.dflt (.cons kA .required (.named "t") .nil)) = true ∧
+    (checkTypeFuel Fix.tree [] namedD 50 (.dict (.cons kA (.int 1) .nil))
+        (.dict Attr.dflt (.cons kA .required (.named "t") .nil))).1 = .accept := by
   decide
 
-/-- #26: `5 0 obj 5 0 R` conforms to Integer for the machine; declaratively it is null -/
+/-- #26 (repaired by C08-09): `5 0 obj 5 0 R` conformed to Integer for the machine; declaratively it
+    is null -/
 theorem selfref_not_null_witness :
-    (checkTypeFuel Fix.tree [((5, 0), .ref 5 0)] [] 50 (.ref 5 0) I).1 = .accept ∧
+    (checkTypeFuel Fix.orig [((5, 0), .ref 5 0)] [] 50 (.ref 5 0) I).1 = .accept ∧
     gfp [((5, 0), .ref 5 0)] [] (.ref 5 0) I = false ∧
-    gfp [((5, 0), .ref 5 0)] [] (.ref 5 0) (.prim Attr.dflt .null) = true := by decide
+    gfp [((5, 0), .ref 5 0)] [] (.ref 5 0) (.prim Attr.dflt .null) = true ∧
+    (checkTypeFuel Fix.tree [((5, 0), .ref 5 0)] [] 50 (.ref 5 0) I).1 = .reject .typeMismatch ∧
+    (checkTypeFuel Fix.tree [((5, 0), .ref 5 0)] [] 50 (.ref 5 0) (.prim Attr.dflt .null)).1 = .accept := by decide
 
 def nmA : Obj := .name [0x61]
 def inA : Chk := .prim ⟨some (.choice [nmA]), .allowed⟩ .name
